@@ -33,6 +33,15 @@ def rule_a(ctx, cr):
               "parameter names are mangled as <fn>.<param>",
               "mangled parameter names are built with %s: they can collide with program "
               "variables" % dots)
+    allowed = re.compile(r"(ToString>?::to_string|String::push|String::push_str|Deref>?::deref|"
+                         r"Into<.*>>?::into|From<.*>>?::from|String::as_str|AsRef<.*>>?::as_ref)$")
+    odd = sorted({c.name for c in mg.calls() if not allowed.search(c.name)})
+    ctx.check(not odd, "C10.a", "mangle/names-copied-verbatim", mg.span,
+              "the mangled name is the function name, '.', the parameter name, each copied "
+              "unchanged (so it is injective in the pair)",
+              "the mangler now also calls %s: if the function or parameter name is shortened or "
+              "rewritten, two functions (FNA / FNA$) or two parameters share one storage slot "
+              "and a nested call overwrites the caller's parameter" % odd)
     al = cr.need_fn("lang::lex::BasicLexer::alphabetic")
     ctx.touch(al)
     from rules import lextables as lt
